@@ -55,7 +55,11 @@ const LEVELS: [Level; 5] = [
 ];
 fn join(v: &Value) -> String {
     v.as_array()
-        .map(|a| a.iter().map(|x| x.as_str().unwrap_or("")).collect::<String>())
+        .map(|a| {
+            a.iter()
+                .map(|x| x.as_str().unwrap_or(""))
+                .collect::<String>()
+        })
         .unwrap_or_default()
 }
 fn join_toks(v: &Value) -> String {
@@ -394,7 +398,8 @@ fn probe(sys: &Sys, env: &Env, full: bool) -> Value {
 /// (taken before the system under test exists: building a logger sets the global max level).
 fn reference(spec: Result<LogSpecification, String>, env: &Env) -> Value {
     match catch_unwind(AssertUnwindSafe(|| {
-        spec.and_then(|s| build_sys(s, env)).map(|sys| probe(&sys, env, true))
+        spec.and_then(|s| build_sys(s, env))
+            .map(|sys| probe(&sys, env, true))
     })) {
         Ok(Ok(p)) => p,
         _ => no_probe(),
@@ -423,13 +428,17 @@ impl Out<'_> {
 }
 
 /// describes the outcome of a parse call: ret, carried filters, text filter present
-fn parse_outcome(r: &Result<Result<LogSpecification, FlexiLoggerError>, String>) -> (String, Value, bool) {
+fn parse_outcome(
+    r: &Result<Result<LogSpecification, FlexiLoggerError>, String>,
+) -> (String, Value, bool) {
     match r {
         Err(p) => (p.clone(), json!([]), false),
         Ok(Ok(s)) => ("ok".to_string(), filters_json(s), s.text_filter().is_some()),
-        Ok(Err(FlexiLoggerError::Parse(_, s))) => {
-            ("err".to_string(), filters_json(s), s.text_filter().is_some())
-        }
+        Ok(Err(FlexiLoggerError::Parse(_, s))) => (
+            "err".to_string(),
+            filters_json(s),
+            s.text_filter().is_some(),
+        ),
         Ok(Err(e)) => (format!("err:other:{e}"), json!([]), false),
     }
 }
@@ -461,7 +470,10 @@ fn run_ops(sc: &Value, out: &mut Out) {
         for step in sc["steps"].as_array().unwrap_or(&empty) {
             let how = step["how"].as_str().unwrap_or("mf");
             refs.push(match step["op"].as_str().unwrap_or("") {
-                "Build" => reference(build_spec(&step["spec"], how, &join_toks(&step["rtoks"])), &env),
+                "Build" => reference(
+                    build_spec(&step["spec"], how, &join_toks(&step["rtoks"])),
+                    &env,
+                ),
                 "Set" | "Push" => reference(build_spec(&step["spec"], how, ""), &env),
                 "ParseNew" | "ParsePush" => {
                     let text = if step.get("text").is_some() {
@@ -483,7 +495,11 @@ fn run_ops(sc: &Value, out: &mut Out) {
     for (k, step) in sc["steps"].as_array().unwrap_or(&empty).iter().enumerate() {
         let op = step["op"].as_str().unwrap_or("");
         let mut ev = json!({"ev": op});
-        ev["ref"] = if want_refs { refs[k].clone() } else { no_probe() };
+        ev["ref"] = if want_refs {
+            refs[k].clone()
+        } else {
+            no_probe()
+        };
         let mut ret = "ok".to_string();
         match op {
             "Build" => {
@@ -580,7 +596,14 @@ fn plain_grid(s: &LogSpecification, targets: &[String]) -> Value {
     Value::Array(
         targets
             .iter()
-            .map(|t| Value::Array(LEVELS.iter().map(|l| Value::Bool(s.enabled(*l, t))).collect()))
+            .map(|t| {
+                Value::Array(
+                    LEVELS
+                        .iter()
+                        .map(|l| Value::Bool(s.enabled(*l, t)))
+                        .collect(),
+                )
+            })
             .collect(),
     )
 }
@@ -630,51 +653,61 @@ fn run_text(sc: &Value, out: &mut Out, root: &Path) {
                 let via = step["via"].as_str().unwrap_or("display");
                 let mut ev = json!({"ev": "RoundTrip", "how": how, "via": via, "spec": step["spec"].clone(),
                                     "text": "", "g0": [], "g1": []});
-                let r = catch_unwind(AssertUnwindSafe(|| -> Result<(Value, Value, String), String> {
-                    let s = build_spec(&step["spec"], how, "")?;
-                    let g0 = plain_grid(&s, &targets);
-                    match via {
-                        "display" => {
-                            let text = s.to_string();
-                            let s1 = LogSpecification::parse(&text).map_err(|e| format!("err:{e}"))?;
-                            Ok((g0, plain_grid(&s1, &targets), text))
-                        }
-                        "toml" => {
-                            let mut buf = Vec::new();
-                            s.to_toml(&mut buf).map_err(|e| format!("err:{e}"))?;
-                            let text = String::from_utf8_lossy(&buf).to_string();
-                            let s1 = LogSpecification::from_toml(&text).map_err(|e| format!("err:{e}"))?;
-                            Ok((g0, plain_grid(&s1, &targets), text))
-                        }
-                        _ => {
-                            // specfile: the first start writes the file, the second start (with another
-                            // initial specification) must read the first one back
-                            let dir = root.join(format!("sf-{}-{}", sc["sc"], k));
-                            let _ = std::fs::remove_dir_all(&dir);
-                            let file = dir.join("spec.toml");
-                            let sink = || Box::new(RecWriter { got: Arc::new(Mutex::new(Vec::new())), max: LevelFilter::Trace });
-                            {
-                                let (_l, _h) = Logger::with(s)
+                let r = catch_unwind(AssertUnwindSafe(
+                    || -> Result<(Value, Value, String), String> {
+                        let s = build_spec(&step["spec"], how, "")?;
+                        let g0 = plain_grid(&s, &targets);
+                        match via {
+                            "display" => {
+                                let text = s.to_string();
+                                let s1 = LogSpecification::parse(&text)
+                                    .map_err(|e| format!("err:{e}"))?;
+                                Ok((g0, plain_grid(&s1, &targets), text))
+                            }
+                            "toml" => {
+                                let mut buf = Vec::new();
+                                s.to_toml(&mut buf).map_err(|e| format!("err:{e}"))?;
+                                let text = String::from_utf8_lossy(&buf).to_string();
+                                let s1 = LogSpecification::from_toml(&text)
+                                    .map_err(|e| format!("err:{e}"))?;
+                                Ok((g0, plain_grid(&s1, &targets), text))
+                            }
+                            _ => {
+                                // specfile: the first start writes the file, the second start (with another
+                                // initial specification) must read the first one back
+                                let dir = root.join(format!("sf-{}-{}", sc["sc"], k));
+                                let _ = std::fs::remove_dir_all(&dir);
+                                let file = dir.join("spec.toml");
+                                let sink = || {
+                                    Box::new(RecWriter {
+                                        got: Arc::new(Mutex::new(Vec::new())),
+                                        max: LevelFilter::Trace,
+                                    })
+                                };
+                                {
+                                    let (_l, _h) = Logger::with(s)
+                                        .log_to_writer(sink())
+                                        .build_with_specfile(&file)
+                                        .map_err(|e| format!("err:{e}"))?;
+                                }
+                                let text = std::fs::read_to_string(&file)
+                                    .map_err(|e| format!("err:{e}"))?;
+                                let other = if step["spec"]["d"].as_i64() == Some(5) {
+                                    LogSpecification::off()
+                                } else {
+                                    LogSpecification::trace()
+                                };
+                                let (l2, _h2) = Logger::with(other)
                                     .log_to_writer(sink())
                                     .build_with_specfile(&file)
                                     .map_err(|e| format!("err:{e}"))?;
+                                let g1 = logger_grid(l2.as_ref(), &targets);
+                                let _ = std::fs::remove_dir_all(&dir);
+                                Ok((g0, g1, text))
                             }
-                            let text = std::fs::read_to_string(&file).map_err(|e| format!("err:{e}"))?;
-                            let other = if step["spec"]["d"].as_i64() == Some(5) {
-                                LogSpecification::off()
-                            } else {
-                                LogSpecification::trace()
-                            };
-                            let (l2, _h2) = Logger::with(other)
-                                .log_to_writer(sink())
-                                .build_with_specfile(&file)
-                                .map_err(|e| format!("err:{e}"))?;
-                            let g1 = logger_grid(l2.as_ref(), &targets);
-                            let _ = std::fs::remove_dir_all(&dir);
-                            Ok((g0, g1, text))
                         }
-                    }
-                }));
+                    },
+                ));
                 match r {
                     Ok(Ok((g0, g1, text))) => {
                         ev["g0"] = g0;
@@ -742,16 +775,20 @@ fn run_conc(sc: &Value, out: &mut Out) {
     let block_ms = sc["block_ms"].as_u64().unwrap_or(300);
 
     // reference observations of the initial and of every submitted specification
-    out.emit(json!({"ev": "Ref", "ret": "ok", "init": true, "spec": sc["init"].clone(),
-                    "p": reference(build_spec(&sc["init"], "mf", ""), &env)}));
+    out.emit(
+        json!({"ev": "Ref", "ret": "ok", "init": true, "spec": sc["init"].clone(),
+                    "p": reference(build_spec(&sc["init"], "mf", ""), &env)}),
+    );
     let mut seen: Vec<Value> = Vec::new();
     for prog in &progs {
         for call in prog.as_array().unwrap_or(&empty) {
             let op = call["op"].as_str().unwrap_or("");
             if (op == "Set" || op == "Push") && !seen.contains(&call["spec"]) {
                 seen.push(call["spec"].clone());
-                out.emit(json!({"ev": "Ref", "ret": "ok", "init": false, "spec": call["spec"].clone(),
-                                "p": reference(build_spec(&call["spec"], "mf", ""), &env)}));
+                out.emit(
+                    json!({"ev": "Ref", "ret": "ok", "init": false, "spec": call["spec"].clone(),
+                                "p": reference(build_spec(&call["spec"], "mf", ""), &env)}),
+                );
             }
         }
     }
@@ -779,7 +816,9 @@ fn run_conc(sc: &Value, out: &mut Out) {
 
     let id_refs: Vec<&str> = ids.iter().map(String::as_str).collect();
     h().sched_reset(&id_refs);
-    let dones: Vec<Arc<AtomicBool>> = (0..nthreads).map(|_| Arc::new(AtomicBool::new(false))).collect();
+    let dones: Vec<Arc<AtomicBool>> = (0..nthreads)
+        .map(|_| Arc::new(AtomicBool::new(false)))
+        .collect();
     let panics: Arc<Mutex<Vec<String>>> = Arc::new(Mutex::new(Vec::new()));
     let mut joins = Vec::new();
     for (i, prog) in progs.iter().enumerate() {
@@ -879,7 +918,11 @@ fn run_conc(sc: &Value, out: &mut Out) {
         if ret == "blocked" || at == Where::Timeout {
             diverged = true;
         }
-        ev["ret"] = json!(if at == Where::Timeout && ret == "ok" { "stuck" } else { ret });
+        ev["ret"] = json!(if at == Where::Timeout && ret == "ok" {
+            "stuck"
+        } else {
+            ret
+        });
         ev["at"] = json!(where_str(&at));
         ev["gate"] = json!(lf_int(log::max_level()));
         out.emit(ev);
@@ -894,7 +937,11 @@ fn run_conc(sc: &Value, out: &mut Out) {
     }
     let ps = panics.lock().unwrap().clone();
     let mut ev = json!({"ev": "End", "sched": if diverged {"diverged"} else {"replayed"}});
-    ev["ret"] = json!(if ps.is_empty() { "ok".to_string() } else { ps[0].clone() });
+    ev["ret"] = json!(if ps.is_empty() {
+        "ok".to_string()
+    } else {
+        ps[0].clone()
+    });
     ev["p"] = probe(&sys, &env, true);
     out.emit(ev);
     drop(clones);
